@@ -39,7 +39,7 @@ var tailT = bytes.Repeat([]byte("abcdefgh"), 40)
 
 // Seg is one segment of the shape grammar.
 type Seg struct {
-	K    string `json:"k"` // Z zero run, A run of byte B, R incompressible, T low-entropy text, K copy of the first n bytes so far, L literal bytes
+	K    string `json:"k"` // Z zero run, A run of byte B, R incompressible, T low-entropy text, N incompressible with planted repeats, P recurring long phrases, K copy of the first n bytes so far, L literal bytes
 	N    int    `json:"n,omitempty"`
 	Seed int    `json:"s,omitempty"`
 	B    byte   `json:"b,omitempty"`
@@ -50,7 +50,7 @@ func (s Seg) String() string {
 	switch s.K {
 	case "A":
 		return fmt.Sprintf("A(%#02x,%d)", s.B, s.N)
-	case "R", "T":
+	case "R", "T", "N", "P":
 		return fmt.Sprintf("%s(s%d,%d)", s.K, s.Seed, s.N)
 	case "L":
 		return fmt.Sprintf("L(%x)", s.Lit)
@@ -90,6 +90,60 @@ func randBytes(seed, n int) []byte {
 	return b
 }
 
+// noiseBytes is incompressible data with a few planted repeats (about ten per 64 KiB, together
+// well below the ~900 bytes an LZMA-coded incompressible chunk loses against its raw form): a writer
+// that tries to compress such a chunk codes matches of every length class (2..273), near and far
+// distances, repeated distances (rep0..rep3, short rep) - and then stores the chunk raw and has to
+// forget all of that.
+func noiseBytes(seed, n int) []byte {
+	b := randBytes(seed+1000, n)
+	lens := []int{4, 9, 20, 60, 120, 18, 30, 5, 64, 100, 273, 2}
+	dists := []int{1, 5, 100, 1500, 3000, 100, 100, 40000, 7, 3000, 2, 1500}
+	pos, k := 3500, 0
+	for pos+600 < n {
+		l, d := lens[k%len(lens)], dists[k%len(dists)]
+		if d > pos {
+			d = pos
+		}
+		for i := 0; i < l; i++ {
+			b[pos+i] = b[pos+i-d]
+		}
+		// a literal, then the same distance again (rep0) and a single byte at that distance (short rep)
+		q := pos + l + 1
+		for i := 0; i < 3; i++ {
+			b[q+i] = b[q+i-d]
+		}
+		b[q+5] = b[q+5-d]
+		pos += 5300 + 97*(k%7)
+		k++
+	}
+	return b
+}
+
+// phraseBytes is highly compressible data made of long phrases (30..300 bytes) that recur: matches
+// of the long length class (18..273), rep matches after one-byte edits, far and near distances.
+func phraseBytes(seed, n int) []byte {
+	x := xorshift(0xC2B2AE3D27D4EB4F ^ uint64(seed+3)*0x9E3779B97F4A7C15)
+	var book [][]byte
+	for i := 0; i < 8; i++ {
+		book = append(book, textBytes(seed*8+i, 30+int(x.next()%270)))
+	}
+	b := make([]byte, 0, n+400)
+	for len(b) < n {
+		v := x.next()
+		ph := book[v%8]
+		b = append(b, ph...)
+		if v>>8&3 == 0 {
+			// the same phrase again with one byte changed in the middle: match, literal, rep0
+			c := append([]byte(nil), ph...)
+			c[len(c)/2] ^= 0x20
+			b = append(b, c...)
+		}
+		b = append(b, byte('0'+(v>>16)%10))
+	}
+	return b[:n]
+}
+
 // textBytes is the fixed low-entropy source: words from a small vocabulary.
 func textBytes(seed, n int) []byte {
 	words := []string{"the ", "of ", "lzma ", "xz ", "dictionary ", "match ", "literal ", "and ", "range ", "coder ", "a ", "to ", "\n", "0123 ", "chunk "}
@@ -117,6 +171,10 @@ func buildShape(ss []Seg) []byte {
 			b = append(b, randBytes(s.Seed, s.N)...)
 		case "T":
 			b = append(b, textBytes(s.Seed, s.N)...)
+		case "N":
+			b = append(b, noiseBytes(s.Seed, s.N)...)
+		case "P":
+			b = append(b, phraseBytes(s.Seed, s.N)...)
 		case "K":
 			n := s.N
 			if n > len(b) {
